@@ -14,20 +14,28 @@ import (
 // before encoding, raw changes the encoded bytes of message msg, cut closes
 // the stream right after message msg.
 type corr struct {
-	name  string
-	msg   int
-	typed func(st any)
-	raw   func(b []byte) []byte
-	cut   bool
+	// replay, if set, returns the bytes the host sent as message msg of the previous
+	// exchange of the same RPC on this transport (nil: nothing to replay)
+	replay func(msg int) []byte
+	name   string
+	msg    int
+	typed  func(st any)
+	raw    func(b []byte) []byte
+	cut    bool
 }
 
-func (c corr) honest() bool { return c.typed == nil && c.raw == nil }
+func (c corr) honest() bool { return c.typed == nil && c.raw == nil && c.replay == nil }
 
 var honestCorr = corr{name: "honest"}
 
 // applyRaw encodes o (message number msg) and applies the raw corruption.
 func (c corr) bytesOf(msg int, o proto4.Object) (b []byte, cut bool) {
 	b = encode(o)
+	if c.replay != nil {
+		if p := c.replay(msg); p != nil {
+			return append([]byte(nil), p...), false
+		}
+	}
 	if c.msg == msg && c.raw != nil {
 		b = c.raw(append([]byte(nil), b...))
 	}
